@@ -33,10 +33,14 @@ SameRows(out, src)    == SameBag([q \in DOMAIN out |-> Cells(out[q])], [q \in DO
 (* SHUFFLE on columns / on the index.  on = "k" | "kk" (both columns) | "idx".        *)
 ShuffleKey(r, on) == CASE on = "k" -> <<r.k>> [] on = "kk" -> <<r.k, r.k2>> [] OTHER -> <<r.idx>>
 
+\* the key a row had in the SOURCE frame (the observed index may have been reset by ignore_index=True)
+SourceKey(src, rid, on) == ShuffleKey(src[CHOOSE i \in DOMAIN src : src[i].rid = rid], on)
 \* all rows with one key value lie in one output partition
-CoLocated(parts, on) ==
+CoLocated(parts, src, on) ==
   \A a, b \in DOMAIN parts : a # b =>
-     \A i \in DOMAIN parts[a], j \in DOMAIN parts[b] : ShuffleKey(parts[a][i], on) # ShuffleKey(parts[b][j], on)
+     \A i \in DOMAIN parts[a], j \in DOMAIN parts[b] :
+        (\E x \in DOMAIN src : src[x].rid = parts[a][i].rid) /\ (\E y \in DOMAIN src : src[y].rid = parts[b][j].rid)
+           => SourceKey(src, parts[a][i].rid, on) # SourceKey(src, parts[b][j].rid, on)
 
 \* the key classes of a frame (as sets of rids): what has to stay together
 KeyClasses(src, on) == { { src[j].rid : j \in { j \in DOMAIN src : ShuffleKey(src[j], on) = ShuffleKey(src[i], on) } } : i \in DOMAIN src }
@@ -44,7 +48,7 @@ KeyClasses(src, on) == { { src[j].rid : j \in { j \in DOMAIN src : ShuffleKey(sr
 ShuffleBad(src, on, nout, ignoreIndex, obs) ==
   IF obs.raised # "" THEN {"Raised"}
   ELSE Fails("Rows", IF ignoreIndex THEN SameRows(Flat(obs.parts), src) ELSE SameRowsIdx(Flat(obs.parts), src))
-       \cup Fails("CoLocated", CoLocated(obs.parts, on))
+       \cup Fails("CoLocated", CoLocated(obs.parts, src, on))
        \cup Fails("NParts", Len(obs.parts) = nout)
        \cup Fails("Meta", obs.nparts = Len(obs.parts) /\ obs.ndivs = obs.nparts + 1)
        \cup Fails("WholeOK", obs.wholeok)
@@ -102,7 +106,10 @@ SortBad(src, by, asc, naFirst, ignoreIndex, obs) ==
    into the last partition); user-given divisions are the divisions of the result.                         *)
 Reindexed(src, drop) == [i \in DOMAIN src |-> [rid |-> src[i].rid, idx |-> src[i].k, k |-> IF drop THEN Absent ELSE src[i].k, k2 |-> src[i].k2]]
 
-LabelPartsNoNA(parts) == [b \in DOMAIN parts |-> LET ls == Idxs(parts[b]) IN SelectSeq(ls, LAMBDA x : x # NA)]
+\* Declared divisions are reported as POSITIONS: label v stands at 2v, a division value strictly between the labels
+\* v and v+1 (quantile divisions of numeric keys may be interpolated) at 2v+1.
+Pos(v) == 2 * v
+PosPartsNoNA(parts) == [b \in DOMAIN parts |-> LET ls == SelectSeq(Idxs(parts[b]), LAMBDA x : x # NA) IN [q \in DOMAIN ls |-> Pos(ls[q])]]
 NAOnlyInLast(parts) == \A b \in DOMAIN parts : b < Len(parts) => \A i \in DOMAIN parts[b] : parts[b][i].idx # NA
 
 SetIndexBad(src, drop, udivs, sortit, obs) ==
@@ -111,18 +118,15 @@ SetIndexBad(src, drop, udivs, sortit, obs) ==
        Fails("Rows", SameRowsIdx(out, Reindexed(src, drop)))
        \cup Fails("Order", sortit => /\ Idxs(out) = [p \in DOMAIN src |-> SortedKeySeq(src, "k", <<TRUE>>, FALSE)[p][1]]
                                      /\ NAOnlyInLast(obs.parts))
-       \cup Fails("Truthful", obs.divs # <<>> => DivisionsTruthful(obs.divs, LabelPartsNoNA(obs.parts)))
-       \cup Fails("UserDivs", udivs # <<>> => obs.divs = udivs)
+       \cup Fails("Truthful", obs.divs # <<>> => DivisionsTruthful(obs.divs, PosPartsNoNA(obs.parts)))
+       \cup Fails("UserDivs", udivs # <<>> => obs.divs = [q \in DOMAIN udivs |-> Pos(udivs[q])])
        \cup Fails("Meta", obs.nparts = Len(obs.parts) /\ obs.ndivs = obs.nparts + 1)
        \cup Fails("WholeOK", obs.wholeok)
 
-\* user divisions d_0 < ... < d_n: the partition a label belongs to (labels outside the range go to the ends)
+\* user divisions d_0 < ... < d_n that cover the labels: the partition a label belongs to
+CoversLabels(divs, src) == \A i \in DOMAIN src : divs[1] <= src[i].k /\ src[i].k <= divs[Len(divs)]
 PartOfLabel(divs, x) ==
-  LET n == Len(divs) - 1 IN
-  IF x = NA THEN n
-  ELSE IF x < divs[1] THEN 1
-  ELSE IF x >= divs[n + 1] THEN n
-  ELSE CHOOSE p \in 1..n : divs[p] <= x /\ (x < divs[p + 1] \/ (p = n /\ x <= divs[p + 1]))
+  LET n == Len(divs) - 1 IN CHOOSE p \in 1..n : divs[p] <= x /\ (x < divs[p + 1] \/ (p = n /\ x <= divs[p + 1]))
 
 -----------------------------------------------------------------------------
 (* DROP_DUPLICATES(subset, keep), UNIQUE, NUNIQUE.  subset = "k" | "kk" | "all" (every column of the real
